@@ -120,6 +120,32 @@ def base_documents(rng, thorough):
     return docs
 
 
+def boundary_documents(rng, thorough):
+    """long documents whose terminators (or the CR of a CRLF) fall on the last / first character of the reader's 8 KiB
+    chunks (offsets 106 + 8192 k) when written WITH line breaks: (label, segments, break)"""
+    out = []
+    d = ('~', '*', ':')
+    for brk in (['\n', '\r\n', '\r'] if thorough else ['\n', '\r\n']):
+        for off in ((-2, -1, 0, 1) if thorough else (-1, 0)):
+            segs = [docgen.isa('000000077', d), docgen.seg(d, 'GS', 'HC', 'SENDER', 'RECEIVER', '20040229', '1230', '77', 'X', '004010X098A1'),
+                    'ST*837*0001', 'BHT*0019*00*1*20040229*1230*CH']
+            pos = sum(len(x) + 1 + len(brk) for x in segs)
+            for k in (1, 2):
+                target = 106 + 8192 * k + off            # index at which the terminator must sit
+                while target - pos > 400:
+                    x = docgen.seg(d, 'REF', '87', 'X' * rng.randint(1, 30))
+                    segs.append(x)
+                    pos += len(x) + 1 + len(brk)
+                need = target - pos
+                if need >= 8:
+                    x = 'NTE*ADD*' + 'A' * (need - 8)
+                    segs.append(x)
+                    pos += len(x) + 1 + len(brk)
+            segs += ['REF*87*LAST', 'SE*%d*0001' % (len(segs) - 1), 'GE*1*77', 'IEA*1*000000077']
+            out.append(('boundary:%r:off%d' % (brk, off), segs, brk))
+    return out
+
+
 def run(ctx, report):
     rng = random.Random(ctx['seed'])
     logging.disable(logging.CRITICAL)
@@ -167,6 +193,19 @@ def run(ctx, report):
             # reader correspondence on both encodings
             reqs.append(('reader', ['0', t2, '']))
             meta.append((label, d2, brk, t2))
+    # line breaks across the reader's chunk boundaries
+    for (label, segs, brk) in boundary_documents(rng, thorough):
+        plain = docgen.encode(segs, ('~', '*', ':'), '')
+        broken = docgen.encode(segs, ('~', '*', ':'), brk)
+        report.case((label, brk))
+        report.count('boundary-documents')
+        a, b = run_impl(plain), run_impl(broken)
+        if a != b:
+            what = 'verdict' if a[0] != b[0] else ('errors' if a[1] != b[1] else 'ack')
+            report.fail('C12:chunk-boundary:%s' % what, 'a %d-character document validates differently with %r after the terminators (%s differs)' % (
+                len(broken), brk, what), {'document': label, 'break': brk, 'text': broken[:2000], 'length': len(broken)})
+        reqs.append(('reader', ['0', broken, '']))
+        meta.append((label, ('~', '*', ':'), brk, broken))
     if ctx['driver_ok'] and reqs:
         outs = mr.run(reqs, shards=4)
         for (label, d2, brk, t2), mo in zip(meta, outs):
